@@ -82,6 +82,37 @@ Example C07_refusals_with_sizes_nonvacuous :
   snd (spec_run (abs empty_world) hist_sizes) = snd (run fixed_cfg empty_world hist_sizes).
 Proof. exact hist_sizes_outputs. Qed.
 
+(* iterators ([IterNew k] = iter(store), [IterNext k] = next(it)) are operations of the histories of
+   C07_store_refines_list; in the specification every iterator walks the list with its own cursor: *)
+Theorem C07_spec_iterator_walks_the_list :
+  forall s h k cur, s_h s = Some h -> @alookup nat nat Nat.eqb k (sh_iters h) = Some cur ->
+    snd (spec_step s (IterNext k)) = match nth_error (s_items s h) cur with Some (t, _) => OItem t | None => OStop end /\
+    cursor (fst (spec_step s (IterNext k))) k
+    = Some (match nth_error (s_items s h) cur with Some _ => S cur | None => cur end).
+Proof. exact spec_iter_next. Qed.
+Print Assumptions C07_spec_iterator_walks_the_list.
+
+(* and advancing or restarting one iterator moves no other cursor and does not change the list: two iterators
+   advanced alternately, nested loops, a restart while another is half-way all see the whole list *)
+Theorem C07_iterators_are_independent :
+  forall s h k k', s_h s = Some h -> k <> k' ->
+    (cursor (fst (spec_step s (IterNext k))) k' = cursor s k' /\
+     cursor (fst (spec_step s (IterNew k))) k' = cursor s k') /\
+    (forall h1, s_h (fst (spec_step s (IterNext k))) = Some h1 ->
+                s_items (fst (spec_step s (IterNext k))) h1 = s_items s h).
+Proof. exact iterators_independent. Qed.
+Print Assumptions C07_iterators_are_independent.
+
+Example C07_iterators_nonvacuous :
+  hist_ok (abs empty_world) hist_iters /\
+  snd (run fixed_cfg empty_world hist_iters) =
+  [OUnit; OIdx 0; OIdx 1; OIdx 2;
+   OUnit; OUnit; OItem 0; OItem 0; OItem 1; OItem 1; OItem 2; OItem 2; OStop; OStop;
+   OUnit; OItem 0; OUnit; OItem 0; OItem 1; OItem 2; OStop; OItem 1;
+   OUnit; OItem 0; OUnit; OItem 0; OIdx 3; OUnit; OItem 2; OItem 3; OStop; OUnit] /\
+  snd (spec_run (abs empty_world) hist_iters) = snd (run fixed_cfg empty_world hist_iters).
+Proof. exact hist_iters_outputs. Qed.
+
 (* locating an index through the cumulative size table = indexing the concatenation (every seam) *)
 Theorem C07_size_table_lookup_is_concat_index :
   forall parts i, nc_load parts (Some (cum (map (@length item) parts))) i = nth_error (concat parts) i.
